@@ -219,7 +219,8 @@ func c12Tag(f *Fail, ft c12Fault, c c12Case) *Fail {
 
 func c12Gen(t *rapid.T, rec *evid.Recorder) c12Case {
 	r := gen.R{T: t}
-	g := &gen.Syn{R: r, MaxDepth: 1 + r.Intn(3, "depth"), StmtDepth: r.Intn(3, "sdepth"), RichStr: true, Tpl: true, MultiTpl: true}
+	// never scaled up: every token of the program is a fault point, and each fault costs two parses of the whole text
+	g := &gen.Syn{R: r, MaxDepth: 1 + r.Intn(3, "depth"), StmtDepth: r.Intn(3, "sdepth"), RichStr: true, Tpl: true, MultiTpl: true, NoScale: true}
 	tree := g.Program(4)
 	opt := layout.Options{Random: true, ASI: r.Bool("asi"), Comments: r.Bool("comments")}
 	if r.Intn(4, "head") == 0 {
